@@ -479,6 +479,11 @@ class Interp:
             v = self.store.get(a)
             if isinstance(v, Opaque) and v.tag == 'Guard' and v.get('gid') in self.held and v.get('gid') != keep:
                 self.effect('unlock', name=self.held.pop(v.get('gid')), gid=v.get('gid'))
+            elif isinstance(v, RStruct) and v is not moved_out:
+                # a value of a type with a user Drop impl goes out of scope (only looked at while some shared object is held)
+                fd = self.lib.find_user_method(v.ty, 'drop', trait='Drop')
+                if fd is not None:
+                    self.call_fn(fd, [Ref(a, ())])
 
     def _contains_skip_target(self, node):
         return self.skipping in self._desc_ids(node)
